@@ -42,18 +42,20 @@ Record rview (c : cfg) (nb : N) (w : wal) (d : disk) (wc : wal) (dc : disk) (S :
   rv_view : lview c nb wc dc S t f0 tw;
   rv_segs : st_segs w = st_segs wc;
   rv_tail : st_tail w = st_tail wc;
-  rv_files : dk_files dc = dk_files (sh d);
+  rv_files : forall n, lookup n (dk_files dc) <> None -> lookup n (dk_files (sh d)) = lookup n (dk_files dc);
   rv_nodup : NoDup (map fst (dk_files d));
-  rv_stale : forall n f, lookup n (dk_files d) = Some f -> df_pend f <> None -> n = name_of t }.
+  rv_stale : forall n f s, lookup n (dk_files d) = Some f -> df_pend f <> None -> In s S -> name_of s <> n }.
 
 Lemma RV_view c nb w d nom : RV c nb w d nom ->
   exists wc dc S t f0 tw, rview c nb w d wc dc S t f0 tw /\ sp_of dc = nom /\ dk_stable dc = dk_stable d.
 Proof.
-  intros (wc & dc & o & HL & Hsp & Hs & Ht & Hf & Hst & ND & Hso & Hot).
+  intros (wc & dc & HL & Hsp & Hs & Ht & Hf & Hst & ND & Hso).
   destruct (LInv_view _ _ _ _ HL) as (S & t & f0 & tw & V).
   exists wc, dc, S, t, f0, tw. split; [|auto]. constructor; auto.
-  intros n f Hl Hp. pose proof (Hso n f Hl Hp) as Ho. destruct (Hot n Ho) as (t' & Ht' & <-).
-  rewrite Hs, (lv_segs _ _ _ _ _ _ _ _ V), tail_info_app in Ht'. inversion Ht'; reflexivity.
+  intros n f s Hl Hp Hin Hn.
+  assert (Hin' : In s (st_segs w)) by (rewrite Hs, (lv_segs _ _ _ _ _ _ _ _ V); apply in_or_app; left; exact Hin).
+  pose proof (Hso n f s Hl Hp Hin' Hn) as K. rewrite Hs, (lv_segs _ _ _ _ _ _ _ _ V), tail_info_app in K. inversion K; subst s.
+  apply (DIs_sealed_neq c nb dc _ S t t (lv_dis _ _ _ _ _ _ _ _ V) (lv_meta _ _ _ _ _ _ _ _ V) eq_refl Hin). reflexivity.
 Qed.
 
 Section Reads.
@@ -63,26 +65,36 @@ Hypothesis RVw : rview c nb w d wc dc S t f0 tw.
 
 Let V := rv_view _ _ _ _ _ _ _ _ _ _ RVw.
 
+Lemma rv_lookup n g : lookup n (dk_files dc) = Some g -> exists f, lookup n (dk_files d) = Some f /\ g = sh_file f.
+Proof.
+  intros Hg. pose proof (rv_files _ _ _ _ _ _ _ _ _ _ RVw n ltac:(rewrite Hg; discriminate)) as K. rewrite Hg in K.
+  unfold sh in K. rewrite lookup_map_files in K. destruct (lookup n (dk_files d)) as [f|]; [|discriminate].
+  cbn in K. inversion K. exists f. auto.
+Qed.
+
 Lemma rv_tail_file : exists f, lookup (name_of t) (dk_files d) = Some f /\ f0 = sh_file f.
+Proof. apply rv_lookup. apply (lv_file _ _ _ _ _ _ _ _ V). Qed.
+
+Lemma rv_sealed_file s : In s S -> exists f, lookup (name_of s) (dk_files d) = Some f /\ df_pend f = None /\
+  lookup (name_of s) (dk_files dc) = Some (sh_file f).
 Proof.
-  pose proof (lv_file _ _ _ _ _ _ _ _ V) as Hf. rewrite (rv_files _ _ _ _ _ _ _ _ _ _ RVw) in Hf.
-  unfold sh in Hf. rewrite lookup_map_files in Hf. destruct (lookup (name_of t) (dk_files d)) as [f|]; [|discriminate].
-  cbn in Hf. inversion Hf. exists f. auto.
+  intros Hin. pose proof (lv_sealed _ _ _ _ _ _ _ _ V) as Hso. rewrite Forall_forall in Hso.
+  destruct (Hso s Hin) as (_ & _ & g & Hg & _). destruct (rv_lookup _ _ Hg) as (f & Hf & ->).
+  exists f. split; [exact Hf|]. split; [|exact Hg].
+  destruct (df_pend f) eqn:E; [|reflexivity]. exfalso.
+  apply (rv_stale _ _ _ _ _ _ _ _ _ _ RVw (name_of s) f s Hf ltac:(congruence) Hin). reflexivity.
 Qed.
 
-Lemma rv_other_file n : n <> name_of t -> file_ents n d = file_ents n dc.
+Lemma rv_other_file s : In s S -> file_ents (name_of s) d = file_ents (name_of s) dc.
 Proof.
-  intros Hne. rewrite (file_ents_files n dc (sh d) (rv_files _ _ _ _ _ _ _ _ _ _ RVw)).
-  apply file_ents_sh_nopend. intros f Hl. destruct (df_pend f) eqn:E; [|reflexivity].
-  exfalso. apply Hne. apply (rv_stale _ _ _ _ _ _ _ _ _ _ RVw n f Hl). congruence.
+  intros Hin. destruct (rv_sealed_file s Hin) as (f & Hf & Hp & Hg). unfold file_ents. rewrite Hf, Hg.
+  unfold cur_ents. rewrite Hp. reflexivity.
 Qed.
 
-Lemma rv_seg_read_other n b i : n <> name_of t -> seg_read n b i d = seg_read n b i dc.
+Lemma rv_seg_read_other s b i : In s S -> seg_read (name_of s) b i d = seg_read (name_of s) b i dc.
 Proof.
-  intros Hne. rewrite (seg_read_files n b i dc (sh d) (rv_files _ _ _ _ _ _ _ _ _ _ RVw)).
-  destruct (lookup n (dk_files d)) as [f|] eqn:Hl; [|apply seg_read_sh_none; exact Hl].
-  apply (seg_read_sh_nopend n b i d f Hl). destruct (df_pend f) eqn:E; [|reflexivity].
-  exfalso. apply Hne. apply (rv_stale _ _ _ _ _ _ _ _ _ _ RVw n f Hl). congruence.
+  intros Hin. destruct (rv_sealed_file s Hin) as (f & Hf & Hp & Hg). unfold seg_read. rewrite Hf, Hg.
+  unfold cur_ents. rewrite Hp. reflexivity.
 Qed.
 
 Lemma rv_tail_lookup i : tail_lookup tw i d = tail_lookup tw i dc.
@@ -90,9 +102,10 @@ Proof.
   destruct rv_tail_file as (f & Hf & E0).
   pose proof (lv_tw _ _ _ _ _ _ _ _ V) as (Tn & Tb & Tm & _ & _ & _ & _ & Tc).
   unfold tail_lookup. destruct ((i <? ws_base tw) || (i <? ws_min tw) || (ws_commit_idx tw <? i)) eqn:E; [reflexivity|].
-  rewrite Tn. rewrite (seg_read_files (name_of t) (ws_base tw) i dc (sh d) (rv_files _ _ _ _ _ _ _ _ _ _ RVw)).
-  apply (seg_read_sh_short _ _ _ d f Hf). rewrite Tc, Tb in E. subst f0. cbn [sh_file df_ents] in E.
+  rewrite Tn. unfold seg_read. rewrite Hf, (lv_file _ _ _ _ _ _ _ _ V). rewrite E0. unfold cur_ents at 2. cbn [sh_file df_pend df_ents].
+  rewrite Tc, Tb in E. subst f0. cbn [sh_file df_ents] in E.
   pose proof (lv_twf V) as (_ & _ & Hb1 & _).
+  unfold cur_ents. destruct (df_pend f); [|reflexivity]. apply nth_error_app1.
   unfold tl_of, llen in E. rewrite Tb. destruct (N.of_nat (length (df_ents f)) =? 0) eqn:Z; lia.
 Qed.
 
@@ -122,12 +135,11 @@ Qed.
 Lemma rv_abs : abs w d = dread dc.
 Proof.
   rewrite <- (LInv_abs c nb wc dc (LInv_of_view V)). rewrite !abs_is_gen.
-  rewrite <- (rv_segs _ _ _ _ _ _ _ _ _ _ RVw), <- (rv_tail _ _ _ _ _ _ _ _ _ _ RVw).
   rewrite (rv_segs _ _ _ _ _ _ _ _ _ _ RVw), (rv_tail _ _ _ _ _ _ _ _ _ _ RVw), (lv_segs _ _ _ _ _ _ _ _ V), (lv_tail _ _ _ _ _ _ _ _ V).
   unfold abs_gen. rewrite !flat_map_app. cbn [flat_map]. rewrite !app_nil_r.
   rewrite rv_seg_visible_tail.
   rewrite (flat_visible_ext (tail_last (Some tw)) dc d S); [reflexivity|].
-  intros s Hs. apply rv_other_file. apply rv_tail_name_neq. exact Hs.
+  intros s Hs. apply rv_other_file. exact Hs.
 Qed.
 
 (* GetLog *)
@@ -141,16 +153,17 @@ Proof.
   destruct (find_segment (S ++ [t]) i) as [s|] eqn:Efs; [|reflexivity].
   destruct (fname_eqb (ws_name tw) (name_of s)) eqn:En.
   - destruct (tail_lookup tw i dc); reflexivity.
-  - assert (Hne : name_of s <> name_of t).
-    { pose proof (lv_tw _ _ _ _ _ _ _ _ V) as (Tn & _). rewrite Tn in En. apply fname_eqb_neq in En. congruence. }
-    rewrite (rv_seg_read_other _ _ _ Hne). destruct (seg_read (name_of s) (si_base s) i dc); reflexivity.
+  - assert (HinS : In s S).
+    { destruct (find_segment_sound _ _ _ Efs) as (Hin & _). apply in_app_or in Hin. destruct Hin as [K|[<-|[]]]; [exact K|].
+      pose proof (lv_tw _ _ _ _ _ _ _ _ V) as (Tn & _). rewrite Tn, fname_eqb_refl in En. discriminate. }
+    rewrite (rv_seg_read_other _ _ _ HinS). destruct (seg_read (name_of s) (si_base s) i dc); reflexivity.
 Qed.
 
 End Reads.
 
 (* ------------------------------------------------------------------ *)
 (* non-mutating calls                                                   *)
-Definition env_on (d : disk) : env := {| e_acts := []; e_disk := d; e_fault := None; e_m := zero_metrics |}.
+Definition env_on (d : disk) : env := {| e_acts := []; e_disk := d; e_fault := None; e_fx := fx_none; e_m := zero_metrics |}.
 
 Definition is_read (o : sop) : Prop :=
   match o with OGet _ | OFirst | OLast | OGetS _ => True | _ => False end.
@@ -221,7 +234,7 @@ Proof.
   unfold observed. cbn [ss_wal ss_env]. rewrite (rv_abs _ _ _ _ _ _ _ _ _ _ RVw), <- Hst. exact Hsp.
 Qed.
 
-Lemma stale_ok_nopend d : no_pend d -> stale_ok None d.
+Lemma stale_ok_nopend d : no_pend d -> stale_ok [] d.
 Proof. intros H n f Hl Hp. exfalso. apply Hp. apply (H n f Hl). Qed.
 
 Lemma sh_keys d : map fst (dk_files (sh d)) = map fst (dk_files d).
@@ -230,21 +243,34 @@ Proof. apply map_files_keys. Qed.
 Lemma LInv_NoDup_sh c nb w d : LInv c nb w (sh d) -> NoDup (map fst (dk_files d)).
 Proof. intros (_ & _ & HD & _). rewrite <- sh_keys. apply (DIs_NoDup _ _ _ HD). Qed.
 
+Lemma RV_intro c nb w wc d nom :
+  LInv c nb wc (sh d) -> sp_of (sh d) = nom -> st_segs w = st_segs wc -> st_tail w = st_tail wc ->
+  (forall n f p, lookup n (dk_files d) = Some f -> df_pend f = Some p ->
+     (exists t, tail_info (st_segs wc) = Some t /\ n = name_of t) \/ unlisted d n) ->
+  RV c nb w d nom.
+Proof.
+  intros HL Hsp Hs Ht Hst. pose proof (LInv_NoDup_sh _ _ _ _ HL) as ND.
+  exists wc, (sh d). split; [exact HL|]. split; [exact Hsp|]. split; [exact Hs|]. split; [exact Ht|].
+  split; [intros n _; reflexivity|]. split; [reflexivity|]. split; [exact ND|].
+  intros n f s Hl Hp Hin Hn. destruct (df_pend f) as [p|] eqn:Ep; [|congruence].
+  destruct (LInv_view _ _ _ _ HL) as (S & t & f0 & tw & V). rewrite Hs, (lv_segs _ _ _ _ _ _ _ _ V) in Hin |- *.
+  rewrite tail_info_app. apply in_app_or in Hin. destruct Hin as [Hin|[<-|[]]]; [exfalso|reflexivity].
+  destruct (Hst n f p Hl Ep) as [(t' & Ht' & ->)|Hu].
+  - rewrite (lv_segs _ _ _ _ _ _ _ _ V), tail_info_app in Ht'. inversion Ht'; subst t'.
+    apply (DIs_sealed_neq c nb (sh d) _ S t s (lv_dis _ _ _ _ _ _ _ _ V) (lv_meta _ _ _ _ _ _ _ _ V) eq_refl Hin). exact Hn.
+  - apply (Hu _ s (lv_meta _ _ _ _ _ _ _ _ V)); [cbn; apply in_or_app; left; exact Hin|exact Hn].
+Qed.
+
 Lemma RV_of_live c nb w d defer : Live c nb w d defer -> RV c nb w d (sp_of (sh d)).
 Proof.
-  intros (HL & Hst). pose proof (LInv_NoDup_sh _ _ _ _ HL) as ND.
-  destruct Hst as [Hn|(t & f & p & Ht & Hf & Hp & Hso & _)].
-  - exists w, (sh d), None. split; [exact HL|]. do 5 (split; [reflexivity|]). split; [exact ND|].
-    split; [apply stale_ok_nopend; exact Hn|intros n K; discriminate].
-  - exists w, (sh d), (Some (name_of t)). split; [exact HL|]. do 5 (split; [reflexivity|]). split; [exact ND|].
-    split; [exact Hso|]. intros n K. inversion K; subst. exists t. auto.
+  intros (HL & Hst). apply (RV_intro c nb w w d _ HL eq_refl eq_refl eq_refl).
+  intros n f p Hl Hp. destruct (Hst n f p Hl Hp) as [(t & A & B & _)|K]; [left; exists t; auto|right; exact K].
 Qed.
 
 Lemma RV_of_seal c nb w d : Seal c nb w d -> RV c nb w d (sp_of (sh d)).
 Proof.
-  intros (tw & Ht & His & Hr & HL & Hn). pose proof (LInv_NoDup_sh _ _ _ _ HL) as ND.
-  exists (set_rot w (Some (ws_index_start tw))), (sh d), None. split; [exact HL|]. do 5 (split; [reflexivity|]). split; [exact ND|].
-  split; [apply stale_ok_nopend; exact Hn|intros n K; discriminate].
+  intros (tw & Ht & His & Hr & HL & Hn). apply (RV_intro c nb w _ d _ HL eq_refl eq_refl eq_refl).
+  intros n f p Hl Hp. right. apply (Hn n f p Hl Hp).
 Qed.
 
 Lemma Mode_RV c nb w d nom defer : Mode c nb w d nom defer -> st_closed w = false -> RV c nb w d nom.
@@ -256,20 +282,20 @@ Qed.
 
 (* ------------------------------------------------------------------ *)
 (* symmetry of the strict relation                                      *)
-Lemma drel_sym d dc : drel None d dc -> drel None dc d.
+Lemma drel_sym d dc : drel [] d dc -> drel [] dc d.
 Proof.
   intros H. pose proof (drel_strict_in d dc H) as HF. pose proof (drel_NoDup _ _ _ H) as ND.
   destruct H as (H1 & H2 & H3 & H4 & H5 & H6).
   split.
-  { clear - HF. induction HF as [|a b l lc (E & (A & B & C & D & _) & P) _ IH]; constructor; [|exact IH].
+  { clear - HF. induction HF as [|a b l lc (E & (A & B & C & _) & P) _ IH]; constructor; [|exact IH].
     split; [auto|]. unfold frel. repeat split; auto. }
-  repeat split; auto. intros n f g A B _. symmetry. apply (H6 n g f B A). discriminate.
+  repeat split; auto. intros n f g A B _. symmetry. apply (H6 n g f B A). intros [].
 Qed.
 
-Lemma drel_nopend d dc : drel None d dc -> no_pend dc -> no_pend d.
+Lemma drel_nopend d dc : drel [] d dc -> no_pend dc -> no_pend d.
 Proof.
   intros (H1 & _ & _ & _ & _ & H6) Hn n f Hl. destruct (lrel_lookup_some n _ _ f H1 Hl) as (g & Hg & _).
-  rewrite (H6 n f g Hl Hg ltac:(discriminate)). apply (Hn n g Hg).
+  rewrite (H6 n f g Hl Hg ltac:(intros [])). apply (Hn n g Hg).
 Qed.
 
 (* ------------------------------------------------------------------ *)
@@ -280,13 +306,26 @@ Lemma ad_keys d : map fst (dk_files (ad d)) = map fst (dk_files d).
 Proof. unfold ad, dirfix. rewrite map_files_keys. apply adopt_keys. Qed.
 
 Lemma live_clean c nb w d defer : LInv c nb w (sh d) -> no_pend d -> Live c nb w d defer.
-Proof. intros H Hn. split; [exact H|left; exact Hn]. Qed.
+Proof. intros H Hn. split; [exact H|]. intros n f p Hl Hp. rewrite (Hn n f Hl) in Hp. discriminate. Qed.
 
 Lemma RD_of_clean c nb w d alts defer : LInv c nb w (sh d) -> no_pend d -> In (sp_of (sh d)) alts -> RD c nb d alts defer.
 Proof.
   intros HL Hn Hin. pose proof (LInv_NoDup_sh _ _ _ _ HL) as ND. unfold RD. rewrite (ad_nopend d ND Hn).
   split; [apply HL|apply cand_alts; exact Hin].
 Qed.
+
+(* files whose deletion failed can be put back under a live state *)
+Lemma LInv_undelete c nb w d ns : LInv c nb w (del_disk ns d) -> DIs c nb d -> no_pend d -> LInv c nb w d.
+Proof.
+  intros (H1 & H2 & H3 & H4 & H5 & t & f & tw & A & B & C & D & E) HD HN.
+  pose proof (DIs_NoDup _ _ _ HD) as ND. destruct (del_disk_meta ns d) as (M1 & _).
+  split; [exact H1|]. split; [exact H2|]. split; [exact HD|]. split; [exact HN|]. split; [rewrite <- M1; exact H5|].
+  exists t, f, tw. split; [exact A|]. split; [|auto].
+  rewrite (del_disk_lookup ns d (name_of t) ND) in B. destruct (mem_name (name_of t) ns); [discriminate|exact B].
+Qed.
+
+Lemma rems_nil ns : rems ns [] = [].
+Proof. induction ns as [|n ns IH]; [reflexivity|exact IH]. Qed.
 
 Lemma open_segs_err c : forall segs acc e r sl tl e', open_segs c segs acc e = (r, sl, tl, e') -> r = ROk \/ res_class r = RErrOther.
 Proof.
@@ -307,6 +346,7 @@ Proof.
   unfold open_wal. destruct (_ && _); [intros E; inversion E; discriminate|].
   destruct (if dk_inited (e_disk e) then (true, e) else io AInitMeta e) as [ok0 e0].
   destruct (negb ok0); [intros E; inversion E; discriminate|].
+  destruct (armed e0 && fx_list (e_fx e0)); [intros E; inversion E; discriminate|].
   destruct (open_segs c _ [] e0) as [[[r segs] tail] e1] eqn:Eo.
   destruct (open_segs_err c _ _ _ _ _ _ _ Eo) as [-> | Hr].
   - destruct tail as [tw|]; [intros E; inversion E|].
@@ -315,31 +355,41 @@ Proof.
   - destruct r; cbn in Hr; try discriminate; intros E; inversion E; discriminate.
 Qed.
 
-Lemma reopen_ok c nb d alts defer acts f m :
+Lemma reopen_ok c nb d alts defer acts f fx m :
   cfg_ok c -> nb + 1 < two64 -> RD c nb d alts defer ->
-  let e := {| e_acts := acts; e_disk := adopt_disk d; e_fault := f; e_m := m |} in
+  let e := {| e_acts := acts; e_disk := adopt_disk d; e_fault := f; e_fx := fx; e_m := m |} in
   exists res e', open_wal c e = (res, e') /\
     ((exists w', res = OOk w' /\ LInv c (nb + 1) w' (sh (e_disk e')) /\ no_pend (e_disk e') /\
                  sp_of (sh (e_disk e')) = sp_of (ad d) /\ (f = None -> e_fault e' = None)) \/
-     (f <> None /\ (exists x, res = OErr x /\ x <> ROk) /\ e_fault e' = None /\ RD c (nb + 1) (e_disk e') alts defer)).
+     (f <> None /\ (exists x, res = OErr x /\ x <> ROk) /\ RD c (nb + 1) (e_disk e') alts defer)).
 Proof.
   intros Hc Hnb (HD & Hcand) e.
-  set (ec := {| e_acts := acts; e_disk := ad d; e_fault := None; e_m := m |}).
+  set (ec := {| e_acts := acts; e_disk := ad d; e_fault := None; e_fx := fx; e_m := m |}).
   assert (ND : NoDup (map fst (dk_files (adopt_disk d)))) by (rewrite adopt_keys, <- ad_keys; apply (DIs_NoDup _ _ _ HD)).
-  assert (Hrel : drel None (adopt_disk d) (ad d)) by (apply drel_dirfix; exact ND).
+  assert (Hrel : drel [] (adopt_disk d) (ad d)) by (apply drel_dirfix; exact ND).
   destruct (open_wal_ok c nb ec Hc eq_refl HD (no_pend_ad d) Hnb) as (wc & ec' & Hoc & Hext & HLc & _).
   destruct (open_wal c e) as [res e'] eqn:Ho. exists res, e'. split; [reflexivity|].
-  assert (Hsame : forall (dr : disk), drel None dr (e_disk ec') ->
+  assert (Hsame : forall (dr dcl : disk), drel [] dr dcl -> LInv c (nb + 1) wc dcl -> sp_of dcl = sp_of (ad d) ->
             LInv c (nb + 1) wc (sh dr) /\ no_pend dr /\ sp_of (sh dr) = sp_of (ad d)).
-  { intros dr Hdr. pose proof HLc as (_ & _ & HDc & HNc & _).
-    rewrite (drel_sh_eq _ _ _ Hdr). split; [apply LInv_sh; exact HLc|]. split; [eapply drel_nopend; eauto|].
-    rewrite <- (dirfix_nopend _ (DIs_NoDup _ _ _ HDc) HNc), sp_of_dirfix.
-    destruct (ext_final _ _ _ Hext) as (_ & _ & Hs). exact Hs. }
+  { intros dr dcl Hdr HLcl Hspcl. pose proof HLcl as (_ & _ & HDc & HNc & _).
+    rewrite (drel_sh_eq _ _ _ Hdr). split; [apply LInv_sh; exact HLcl|]. split; [eapply drel_nopend; eauto|].
+    rewrite <- (dirfix_nopend _ (DIs_NoDup _ _ _ HDc) HNc), sp_of_dirfix. exact Hspcl. }
+  pose proof (ext_final _ _ _ Hext) as (_ & _ & Hsfin).
   destruct f as [k|].
-  - destruct (open_wal_lock c e ec res e' (OOk wc) ec' (conj Hrel eq_refl) Ho Hoc) as [(-> & HR')|(F1 & F2 & dm & F3 & F4)].
-    + left. exists wc. split; [reflexivity|]. destruct (Hsame _ (proj1 HR')) as (X1 & X2 & X3).
-      split; [exact X1|]. split; [exact X2|]. split; [exact X3|]. discriminate.
-    + right. split; [discriminate|]. split; [destruct F2 as (x & ->); exists x; split; [reflexivity|eapply open_err_not_ok; exact Ho]|]. split; [exact F1|].
+  - destruct (open_wal_lock c e ec res e' (OOk wc) ec' (conj Hrel eq_refl) Ho Hoc) as [(-> & ns & HRd)|((x & ->) & dm & F3 & F4)].
+    + left. exists wc. split; [reflexivity|].
+      destruct HRd as [HR'|(ecp & HR' & Eec & Ha & _)].
+      * rewrite rems_nil in HR'. destruct (Hsame _ _ (proj1 HR') HLc Hsfin) as (X1 & X2 & X3).
+        split; [exact X1|]. split; [exact X2|]. split; [exact X3|]. discriminate.
+      * assert (Hp : pfx ec ec' (e_disk ecp)).
+        { eapply pfx_more; [apply pfx_end; exact Ha|]. rewrite Eec. apply sh_delete_files. apply HR'. }
+        destruct (ext_pfx _ _ _ _ Hext Hp) as (HDp & HNp & Hsp).
+        assert (HLp : LInv c (nb + 1) wc (e_disk ecp)).
+        { apply (LInv_undelete c (nb + 1) wc (e_disk ecp) ns); [|exact HDp|exact HNp].
+          rewrite <- (delete_files_disk ns ecp (proj2 HR')), <- Eec. exact HLc. }
+        destruct (Hsame _ _ (proj1 HR') HLp Hsp) as (X1 & X2 & X3).
+        split; [exact X1|]. split; [exact X2|]. split; [exact X3|]. discriminate.
+    + right. split; [discriminate|]. split; [exists x; split; [reflexivity|eapply open_err_not_ok; exact Ho]|].
       destruct (ext_pfx _ _ _ _ Hext F4) as (HDm & HNm & Hsm).
       assert (Hn' : no_pend (e_disk e')) by (eapply drel_nopend; eauto).
       pose proof (drel_NoDup _ _ _ F3) as ND'.
@@ -347,7 +397,12 @@ Proof.
       rewrite <- (dirfix_nopend _ (DIs_NoDup _ _ _ HDm) HNm). split; [apply DIs_dirfix; exact HDm|].
       rewrite sp_of_dirfix, Hsm. exact Hcand.
   - (* no fault armed: run the simulation the other way round *)
-    destruct (open_wal_lock c ec e (OOk wc) ec' res e' (conj (drel_sym _ _ Hrel) eq_refl) Hoc Ho) as [(<- & HR')|(_ & (x & F2) & _)]; [|discriminate].
-    left. exists wc. split; [reflexivity|]. destruct (Hsame _ (drel_sym _ _ (proj1 HR'))) as (X1 & X2 & X3).
-    split; [exact X1|]. split; [exact X2|]. split; [exact X3|]. intros _. apply HR'.
+    pose proof (sh_open_wal c ec (OOk wc) ec' eq_refl Hoc) as (_ & Hfc).
+    assert (Hfe : e_fault e' = None) by (apply (sh_open_wal c e res e' eq_refl Ho)).
+    destruct (open_wal_lock c ec e (OOk wc) ec' res e' (conj (drel_sym _ _ Hrel) eq_refl) Hoc Ho) as [(<- & ns & HRd)|((x & F2) & _)]; [|discriminate].
+    left. exists wc. split; [reflexivity|].
+    destruct HRd as [HR'|(ecp & _ & _ & _ & K)]; [|congruence].
+    rewrite rems_nil in HR'.
+    destruct (Hsame _ _ (drel_sym _ _ (proj1 HR')) HLc Hsfin) as (X1 & X2 & X3).
+    split; [exact X1|]. split; [exact X2|]. split; [exact X3|]. intros _. exact Hfe.
 Qed.
